@@ -164,7 +164,8 @@ def live_run(ctx, name, pop, nj, seed, iters=3):
     kw["fitness_function_args"] = {"log": log}
     if has_g2p:
         kw["genotype_to_phenotype_args"] = {"log": log}
-    m = Cls(iters=iters, pop_size=pop, n_jobs=nj, keep_history=True, random_state=seed, **kw)
+    # both signs: minimization is decided by the seed so that the serial and the parallel run of a pair agree
+    m = Cls(iters=iters, pop_size=pop, n_jobs=nj, keep_history=True, random_state=seed, minimization=bool(seed % 2), **kw)
     m.fit()
     stats = {k: [np.asarray(v) for v in vs] for k, vs in m.get_stats().items()}
     fittest = m.get_fittest()
@@ -310,8 +311,8 @@ def run(ctx, rep):
     else:
         plan = [(nm, pop, LIVE_N_JOBS(pop)) for nm, pop in zip(names, (8, 10, 9, 12, 11))]
     tot_b = perm_b = 0
-    for name, pop, njs in plan:
-        seed = ctx.rng.randrange(1, 1 << 20)
+    for pi, (name, pop, njs) in enumerate(plan):
+        seed = ctx.rng.randrange(1, 1 << 19) * 2 + (1 if pi % 2 == 0 else 0)     # alternate minimization on / off
         ser = live_run(ctx, name, pop, 1, seed)
         rep.count("live", (name, pop, 1, seed))
         if any(r["n"] != pop for r in ser["log"]):
